@@ -10,6 +10,7 @@ import gen_lex
 gen_lex.startcond_table(); gen_lex.comment_rules(); gen_lex.lex_rules(); gen_lex.newline_actions()
 gen_kinds.write_header(); gen_trace.write()
 import gen_builtins; gen_builtins.write()
+import gen_rules; gen_rules.write()
 vlib.coq_makefile()
 rc, o, e = vlib.sh(['make', '-k', '-j16'], cwd=vlib.COQ, timeout=6000)
 print((o + e)[-2000:])
